@@ -13,6 +13,8 @@ PUBLIC API
     shape_problems(tree, obj) -> [str]              documented python shapes of decoded values
                                                      (SortedSet, OrderedMapSerializedKey, tuple, list, namedtuple)
     shape(tree) -> short structural label for finding keys ("int", "list<text>", "map<*>")
+    null_in_16bit_collection(tree, value, pv) -> bool   value has a null where protocol v1/v2 cannot express one
+    string_path_ok(tree) -> bool                    lookup_casstype can parse cass_name(tree) (see C28 note inside)
     codec_cases(max_depth, ...) -> hypothesis strategy of {"tree","value","pv","style","via"} cases
     label_case(ctx, tree, value, pv) -> set of feature labels (also reported through ctx.label)
 """
@@ -192,6 +194,23 @@ def _shape(tree, obj, out):
                     out.append(("udt-not-namedtuple", "udt with fields %r decoded as %r" % (names, type(obj).__name__)))
         for f, x in zip(tree["fields"], obj):
             _shape(f[1], x, out)
+
+
+def null_in_16bit_collection(tree, value, pv, top=True):
+    """protocol v1/v2 top-level collections (16-bit lengths) cannot express a null element; a vector hands
+    the protocol version to its elements unchanged, so the same holds below a top-level vector"""
+    if pv >= 3 or value is None or not top:
+        return False
+    t = tree["t"]
+    if t in ("frozen", "reversed"):
+        return null_in_16bit_collection(tree["of"], value, pv, top)
+    if t in ("list", "set"):
+        return any(x is None for x in value)
+    if t == "map":
+        return any(k is None or v is None for k, v in value)
+    if t == "vector":
+        return any(null_in_16bit_collection(tree["of"], x, pv, True) for x in value)
+    return False
 
 
 def string_path_ok(tree):
